@@ -1969,9 +1969,14 @@ XMLReader::xcodeMoreChars(          XMLCh* const            bufToFill
             // If there are no characters or if we need more but didn't get
             // any, return zero now.
             //
-            if (fRawBytesAvail == 0 ||
-                (needMode && (bytesLeft == fRawBytesAvail - fRawBufIndex)))
+            if (fRawBytesAvail == 0)
                 return 0;
+
+            //  The transcoder asked for more bytes to complete a character
+            //  and the source has none: the input ends inside a multi-byte
+            //  sequence (or with an odd byte of a 2/4-byte encoding)
+            if (needMode && (bytesLeft == fRawBytesAvail - fRawBufIndex))
+                ThrowXMLwithMemMgr(TranscodingException, XMLExcepts::Trans_BadSrcSeq, fMemoryManager);
         }
 
         // Ask the transcoder to internalize another batch of chars. It is
